@@ -30,7 +30,7 @@ func newReduceMax() ops.Operator {
 // Init initializes the reduceMax operator.
 func (r *ReduceMax) Init(n *onnx.NodeProto) error {
 	attributes := n.GetAttribute()
-	if len(attributes) == 0 || len(attributes) > MaxReduceMaxAttributes {
+	if len(attributes) > MaxReduceMaxAttributes {
 		return ops.ErrInvalidOptionalAttributeCount(MinReduceMaxAttributes, MaxReduceMaxAttributes, len(attributes), r)
 	}
 
@@ -72,6 +72,13 @@ func (r *ReduceMax) Apply(inputs []tensor.Tensor) ([]tensor.Tensor, error) {
 
 	if ops.HasDuplicates(sortedAxes) {
 		return nil, ops.ErrInvalidInput("axes cannot have duplicate entries after offset", r)
+	}
+
+	// Without axes all dimensions are reduced.
+	if len(axes) == 0 {
+		for i := 0; i < rank; i++ {
+			axes = append(axes, i)
+		}
 	}
 
 	out, err := input.Max(axes...)
